@@ -3,6 +3,7 @@
   (or a subset).  `lake env lean ClockBound/Audit/RsThreads.lean`
 -/
 import ClockBound.Properties.CodeTieThreads
+import ClockBound.Properties.CodeTieWorkers
 #print axioms ClockBound.CodeTieThreads.main_eq
 #print axioms ClockBound.CodeTieThreads.drop_eq
 #print axioms ClockBound.CodeTieThreads.main_ops_pre
@@ -18,3 +19,11 @@ import ClockBound.Properties.CodeTieThreads
 #print axioms ClockBound.ThreadsProgProps.writer_prog_pcs
 #print axioms ClockBound.ThreadsProgProps.drop_step_poller
 #print axioms ClockBound.ThreadsProgProps.drop_step_writer
+#print axioms ClockBound.CodeTieThreads.poller_exit_eq
+#print axioms ClockBound.CodeTieThreads.poller_loop_eq
+#print axioms ClockBound.CodeTieThreads.writer_exit_eq
+#print axioms ClockBound.CodeTieThreads.writer_open_failed_eq
+#print axioms ClockBound.CodeTieThreads.writer_loop_eq
+#print axioms ClockBound.CodeTieThreads.poller_iter_abs
+#print axioms ClockBound.CodeTieThreads.poller_end_kind
+#print axioms ClockBound.CodeTieThreads.writer_step_abs
